@@ -148,7 +148,7 @@ static void case_thdm(vh::Rng& r) {
    const LD sw2 = 1 - mw * mw / (mz * mz), e2 = 4 * PIl * m.get_alpha_em(), g2 = sqrtl(e2 / sw2), v = 2 * mw / g2;
    const Eigen::Matrix<double, 3, 1> ml = m.get_MFe(), mv = m.get_MFv();
    const Eigen::Matrix<std::complex<double>, 3, 3> yh = m.get_ylh(), yH = m.get_ylH(), yA = m.get_ylA(), yHp = m.get_ylHp();
-   LD res = 0, sabs = 0;
+   LD res = 0, sabs = 0, dropped = 0;   // dropped: the F2C terms whose argument lies in (0, 10 eps), which the library evaluates with its x = 0 convention
    auto add = [&](LD t) { res += t; sabs += fabsl(t); };
    auto neutral = [&](const Eigen::Matrix<std::complex<double>, 3, 3>& y, LD mS, int sign) {
       for (int g = 0; g < 3; ++g) {
@@ -157,6 +157,7 @@ static void case_thdm(vh::Rng& r) {
          const LD n2 = std::norm(a) + std::norm(b), re = (std::conj(a) * std::conj(b)).real();
          add(n2 * F(MPREF_F1C, x) / 24 / (mS * mS));
          add(sign * re * ml(g) / ml(1) * F(MPREF_F2C, x) / 3 / (mS * mS));
+         if (x > 0 && x < 10 * std::numeric_limits<double>::epsilon()) dropped += sign * re * ml(g) / ml(1) * F(MPREF_F2C, x) / 3 / (mS * mS);
       }
    };
    neutral(yh, m.get_Mhh(0), +1); neutral(yH, m.get_Mhh(1), +1); neutral(yA, m.get_MAh(1), -1);
@@ -168,7 +169,9 @@ static void case_thdm(vh::Rng& r) {
    // known finding: F2C(x) returns its x = 0 convention (0) for 0 < x < 10 eps, which drops the electron-loop term m_e/m_mu F2C(m_e^2/m_S^2)
    // of a neutral scalar heavier than m_e/sqrt(10 eps) = 10.9 TeV
    const double xe_min = std::pow(ml(0) / std::max({m.get_Mhh(0), m.get_Mhh(1), m.get_MAh(1)}), 2);
-   const std::string sfx = (xe_min > 0 && xe_min < 10 * std::numeric_limits<double>::epsilon()) ? ":electron-loop-F2C-below-10eps" : "";
+   // ... and the key of that finding is given only when the deviation is that dropped term (to 1e-8 of the term sum): anything else in the region keeps the plain key
+   const bool is_dropped_term = std::isfinite(lib) && fabsl(lib - pre * (res - dropped)) <= 1e-8L * pre * sabs;
+   const std::string sfx = (xe_min > 0 && xe_min < 10 * std::numeric_limits<double>::epsilon() && is_dropped_term) ? ":electron-loop-F2C-below-10eps" : "";
    // the Yukawa type is in the case record; cells by basis x running x off-diagonal size
    compare("THDM", "1loop", basis + "|type" + std::to_string(ytype) + (cfg.running_couplings ? "|run" : "|norun") + (op.delta > 0.1 ? "|large-offdiag" : "|small-offdiag") + (sfx.empty() ? "" : "|mS>10.9TeV"), lib, pre * res, pre * sabs, c, sfx);
    delete mp;
